@@ -17,8 +17,9 @@ RULE = ('histories of 1-3 operations (Stream.mix_from with 0-5 inlets, split_to,
         'and changed the store, or raised; distinct = distinct case hash')
 ASSUMPTIONS = [
     'float rounding is not modelled: inputs are dyadic so the material arithmetic is exact; values compared to 1e-9 relative',
-    'the index cache of Chemicals objects (index_overlap / _get_index_and_kind) is cleared before every case and treated as '
-    'transparent: it is cleared before every operation (cache transparency is property C10; DESIGN section 5 item 17 breaks it: a cross-package mix_from followed by split_to/copy_flow with the same CAS tuple raises IndexError)',
+    'the index caches of Chemicals objects (index_overlap / _get_index_and_kind) are NOT modelled: property C10 proves them '
+    'transparent, so a coherent implementation agrees with the cache-free model and a broken cache shows as a mismatch; '
+    'they are cleared only at the start of a case so that every case replays on its own',
     'the enthalpy setter is an oracle: mixture.solve_T_at_HP / xsolve_T_at_HP are made to raise for the first hf calls; '
     'energy_balance=True cases use non-negative flows so that the mixed stream is not empty',
     'separate_out is run with energy_balance=False (its enthalpy part belongs to C02)',
@@ -26,7 +27,7 @@ ASSUMPTIONS = [
 TRUSTED = ['model coq/C01/Model.v is hand-written from thermosteam/{_stream,_multi_stream,indexer,_phase}.py and '
            'base/sparse.py (SparseVector.mix_from); tie = correspondence check',
            'SparseVector/SparseArray item access, arithmetic and sum are modelled by their dense meaning (property C09)',
-           'MultiStream.copy_flow and copy_flow of a stream onto itself are not modelled (never generated)']
+           'copy_flow of a stream onto itself is not modelled (never generated)']
 
 NAMES = ['A_', 'B_', 'C_', 'D_', 'E_', 'F_']
 PKGS = [['A_', 'B_', 'C_', 'D_', 'E_', 'F_'], ['C_', 'A_', 'B_'], ['F_', 'E_', 'D_', 'C_', 'B_', 'A_'], ['B_', 'D_'],
@@ -78,7 +79,11 @@ def gen_stream(rng, neg=False, pkg=None):
             if neg:
                 row = [x * rng.choice([1, 1, -1]) for x in row]
         rows.append(row)
-    return {'pkg': k, 'multi': multi, 'phases': phases, 'flows': rows}
+    sd = {'pkg': k, 'multi': multi, 'phases': phases, 'flows': rows}
+    if rng.random() < 0.35:
+        order = list(range(n)); rng.shuffle(order)
+        sd['order'] = order
+    return sd
 
 def gen_op(rng, ns, streams, eb_ok):
     kind = rng.choice(['mix'] * 10 + ['split'] * 3 + ['sep'] * 2 + ['copy_flow'] * 3 + ['scale', 'mul', 'mixsep'])
@@ -115,12 +120,14 @@ def gen_op(rng, ns, streams, eb_ok):
     if kind == 'sep':
         r = rng.choice(big)
         return [['sep', r, rng.randrange(ns)]]
-    if kind == 'copy_flow' and all(s['multi'] for s in streams):
-        kind = 'scale'
     if kind == 'copy_flow':
-        singles = [i for i in range(ns) if not streams[i]['multi']]
-        d = rng.choice(singles)
-        s = rng.choice([i for i in range(ns) if i != d] or [d])
+        d = rng.randrange(ns)
+        cands = [i for i in range(ns) if i != d] or [d]
+        if streams[d]['multi'] and rng.random() < 0.85:
+            # MultiStream.copy_flow wants the same chemical IDs
+            same = [i for i in cands if PKGS[streams[i]['pkg']] == PKGS[streams[d]['pkg']]]
+            cands = same or cands
+        s = rng.choice(cands)
         m = rng.random()
         if m < 0.4:
             ids = None
@@ -130,12 +137,100 @@ def gen_op(rng, ns, streams, eb_ok):
             ids = rng.sample(NAMES, rng.randint(1, 3))
             if rng.random() < 0.7:
                 ids = [x for x in ids if x in PKGS[streams[s]['pkg']]] or [PKGS[streams[s]['pkg']][0]]
-        return [['copy_flow', d, s, ids, rng.random() < 0.7, rng.random() < 0.3]]
+        phase = rng.choice([None, None, None, 'l', 'g', 's', 'L'])
+        if phase is not None and rng.random() < 0.5:
+            phase = rng.choice(streams[s]['phases'])        # a selector that matches the source
+        return [['copy_flow', d, s, ids, rng.random() < 0.7, rng.random() < 0.3, phase]]
     if kind == 'scale':
         return [['scale', rng.randrange(ns), float(rng.choice(KS))]]
     return [['mul', rng.randrange(ns), float(rng.choice(KS))]]
 
+def gen_cache_case(rng):
+    """several cross-package operations hit one receiver package with the same set of non-zero
+    chemicals presented in different key orders (reordered packages, different insertion orders)"""
+    recv_pkg = rng.choice([0, 0, 4, 2])
+    others = [k for k in range(len(PKGS)) if PKGS[k] != PKGS[recv_pkg] and k != 3]
+    common = ['A_', 'B_', 'C_']
+    chosen = rng.sample(common, rng.choice([2, 2, 3]))
+    vals = rng.sample([1., 2., 3., 8., 0.5, 0.25, 4096.], len(chosen))
+    streams = []
+    n_recv = rng.choice([1, 2, 2])
+    for _ in range(n_recv):
+        sd = gen_stream(rng, pkg=recv_pkg)
+        if rng.random() < 0.5:
+            sd['flows'] = [[0.] * len(r) for r in sd['flows']]
+        streams.append(sd)
+    n_in = rng.choice([2, 2, 3, 4])
+    for j in range(n_in):
+        k = rng.choice(others) if j else others[0]
+        if j == 1:
+            k = [x for x in others if x != streams[-1]['pkg']][0]
+        names = PKGS[k]
+        multi = rng.random() < 0.25
+        phases = sorted(rng.sample(['g', 'l', 's'], 2)) if multi else [rng.choice(['l', 'g'])]
+        scale = rng.choice([1., 1., 2., 0.5])
+        rows = []
+        for pi, _ in enumerate(phases):
+            row = [0.] * len(names)
+            for c, v in zip(chosen, vals):
+                if not multi or rng.random() < 0.7 or pi == 0:
+                    row[names.index(c)] = v * scale * (pi + 1)
+            rows.append(row)
+        order = [names.index(c) for c in chosen] + [i for i in range(len(names)) if names[i] not in chosen]
+        if rng.random() < 0.6:
+            head = order[:len(chosen)]; rng.shuffle(head); order = head + order[len(chosen):]
+        streams.append({'pkg': k, 'multi': multi, 'phases': phases, 'flows': rows, 'order': order})
+    ins = list(range(n_recv, n_recv + n_in))
+    ops = []
+    for _ in range(rng.choice([2, 3, 3, 4])):
+        r = rng.randrange(n_recv)
+        kind = rng.choice(['mix1', 'mix1', 'mixn', 'mixsep', 'copy_like', 'copy_flow'])
+        if kind == 'mix1':
+            ops.append(['mix', r, [rng.choice(ins)], False, 0])
+        elif kind == 'mixn':
+            ops.append(['mix', r, rng.sample(ins, min(len(ins), rng.choice([2, 3]))) + ([r] if rng.random() < 0.3 else []), rng.random() < 0.3, 0])
+        elif kind == 'mixsep':
+            a, b = rng.sample(ins, 2)
+            ops += [['mix', r, [a, b], False, 0], ['sep', r, b]]
+        elif kind == 'copy_like':
+            ops.append(['mix', r, [rng.choice(ins)], True, 0])
+        else:
+            ops.append(['copy_flow', r, rng.choice(ins), None, False, False, None])
+    return {'streams': streams, 'ops': ops}
+
+def gen_copy_flow_case(rng):
+    """MultiStream.copy_flow: multi-phase receiver, single- and multi-phase sources with the same chemical IDs,
+    every phase selector (none, the source's phase, another phase), IDs all/str/list, remove, exclude"""
+    k = rng.choice([0, 1, 2, 3, 4])
+    twin = {0: 4, 4: 0}.get(k, k)
+    n = len(PKGS[k])
+    def flows():
+        return [float(rng.choice(VALS)) if rng.random() < 0.7 else 0. for _ in range(n)]
+    rph = sorted(rng.sample(['g', 'l', 's'], rng.choice([2, 2, 3]))) if rng.random() < 0.7 else sorted(rng.sample(PHASES, rng.choice([1, 2, 3])))
+    recv = {'pkg': k, 'multi': True, 'phases': rph, 'flows': [flows() if rng.random() < 0.5 else [0.] * n for _ in rph]}
+    streams = [recv]
+    for _ in range(rng.choice([1, 2, 3])):
+        pk = k if rng.random() < 0.7 else twin
+        if rng.random() < 0.55:
+            streams.append({'pkg': pk, 'multi': False, 'phases': [rng.choice(rph + ['l', 'g', 'L'])], 'flows': [flows()]})
+        else:
+            sph = list(rph) if rng.random() < 0.6 else sorted(rng.sample(PHASES, rng.choice([1, 2, 3])))
+            streams.append({'pkg': pk, 'multi': True, 'phases': sph, 'flows': [flows() for _ in sph]})
+    ops = []
+    for _ in range(rng.choice([1, 2, 3])):
+        s = rng.randrange(1, len(streams))
+        m = rng.random()
+        ids = None if m < 0.4 else (rng.choice(PKGS[k]) if m < 0.55 else rng.sample(PKGS[k], rng.randint(1, min(3, n))))
+        phase = rng.choice([None, None, 'g', 'l', 's', 'L'] + rph + streams[s]['phases'])
+        ops.append(['copy_flow', 0, s, ids, rng.random() < 0.75, rng.random() < 0.3, phase])
+    return {'streams': streams, 'ops': ops}
+
 def gen_case(rng):
+    u = rng.random()
+    if u < 0.15:
+        return gen_cache_case(rng)
+    if u < 0.27:
+        return gen_copy_flow_case(rng)
     ns = rng.randint(3, 6)
     neg = rng.random() < 0.12
     streams = [gen_stream(rng, neg) for _ in range(ns)]
@@ -157,10 +252,19 @@ def build(sd, T=320.):
     if sd['multi']:
         s = tmo.MultiStream(None, phases=tuple(sd['phases']), T=T, thermo=P)
         assert list(s.phases) == list(sd['phases'])
-        s.imol.data[:] = np.array(sd['flows'], float)
+        if 'order' in sd:      # dictionary insertion order = iteration order of the non-zero keys
+            for k, row in enumerate(sd['flows']):
+                for j in sd['order']:
+                    if j < len(row) and row[j]: s.imol.data[k, j] = float(row[j])
+        else:
+            s.imol.data[:] = np.array(sd['flows'], float)
     else:
         s = tmo.Stream(None, phase=sd['phases'][0], T=T, thermo=P)
-        s.mol[:] = np.array(sd['flows'][0], float)
+        if 'order' in sd:
+            for j in sd['order']:
+                if j < len(sd['flows'][0]) and sd['flows'][0][j]: s.mol[j] = float(sd['flows'][0][j])
+        else:
+            s.mol[:] = np.array(sd['flows'][0], float)
     return s
 
 def pkg_of(s):
@@ -200,7 +304,6 @@ class FailingSolves:
         self.M.solve_T_at_HP, self.M.xsolve_T_at_HP = self.orig
 
 def apply_op(store, op):
-    clear_caches()      # index caches are treated as transparent (C10); see ASSUMPTIONS
     name = op[0]
     if name == 'mix':
         _, r, ins, eb, hf = op
@@ -213,11 +316,13 @@ def apply_op(store, op):
     elif name == 'sep':
         store[op[1]].separate_out(store[op[2]], energy_balance=False)
     elif name == 'copy_flow':
-        _, d, s, ids, remove, exclude = op
-        if ids is None:
-            store[d].copy_flow(store[s], remove=remove, exclude=exclude)
-        else:
-            store[d].copy_flow(store[s], tuple(ids) if isinstance(ids, list) else ids, remove=remove, exclude=exclude)
+        d, s, ids, remove, exclude = op[1:6]
+        phase = op[6] if len(op) > 6 else None
+        IDs = ... if ids is None else (tuple(ids) if isinstance(ids, list) else ids)
+        if isinstance(store[d], env()['tmo'].MultiStream):
+            store[d].copy_flow(store[s], ... if phase is None else phase, IDs, remove=remove, exclude=exclude)
+        else:       # Stream.copy_flow has no phase selector
+            store[d].copy_flow(store[s], IDs, remove=remove, exclude=exclude)
     elif name == 'scale':
         store[op[1]].scale(op[2])
     elif name == 'mul':
@@ -231,8 +336,11 @@ def run_impl(case):
     out = {'init': [snap(s) for s in store], 'n_ok': 0, 'error': None}
     out['ops'] = []
     for op in case['ops']:
-        if op[0] == 'copy_flow' and (isinstance(store[op[1]], env()['tmo'].MultiStream) or op[1] == op[2]):
-            break                     # MultiStream.copy_flow / copying onto itself: not modelled, history ends here
+        if op[0] == 'copy_flow':
+            if op[1] == op[2]:
+                break                 # copying a stream onto itself: not modelled, history ends here
+            multi = isinstance(store[op[1]], env()['tmo'].MultiStream)
+            op = list(op[:6]) + [(op[6] if len(op) > 6 else None) if multi else None, multi]
         out['ops'].append(op)
         before = [snap(s) for s in store]
         try:
@@ -271,6 +379,9 @@ def cop(o):
         if ids is None: i = 'IdAll'
         elif isinstance(ids, str): i = f'(IdOne {cnat(code[ids])})'
         else: i = f'(IdList {clist([code[x] for x in ids], cnat)})'
+        if len(o) > 7 and o[7]:
+            ps = 'PhAll' if o[6] is None else f'(PhOne {PHC[o[6]]})'
+            return f'(OCopyFlowM {cnat(o[1])} {cnat(o[2])} {ps} {i} {cbool(o[4])} {cbool(o[5])})'
         return f'(OCopyFlow {cnat(o[1])} {cnat(o[2])} {i} {cbool(o[4])} {cbool(o[5])})'
     if n == 'scale':
         return f'(OScale {cnat(o[1])} {q(o[2])})'
@@ -350,8 +461,9 @@ def oracle(case):
     store = [build(sd) for sd in case['streams']]
     for op in case['ops']:
         name = op[0]
-        if name == 'copy_flow' and (isinstance(store[op[1]], tmo.MultiStream) or op[1] == op[2]):
+        if name == 'copy_flow' and op[1] == op[2]:
             return None
+        moved_msg = copy_flow_moves(store, op) if name == 'copy_flow' else None
         tot0 = [totals(s) for s in store]
         ok_flows = all(nonneg(s) for s in store)
         kinds = [kind_of(s) for s in store]
@@ -415,8 +527,10 @@ def oracle(case):
                 if not same_tot(totals(store[o]), tot0[o]):
                     return 'separate_out: the separated stream was modified'
         elif name == 'copy_flow':
-            _, d, s, ids, remove, exclude = op
+            d, s, ids, remove, exclude = op[1:6]
             if raised: return None
+            if moved_msg: return moved_msg
+            if kinds[d] == 'M': continue
             names = NAMES if ids is None else ([ids] if isinstance(ids, str) else list(ids))
             moved = [n for n in NAMES if (n in names) != bool(exclude)] if ids is not None else ([] if exclude else NAMES)
             src_ids = set(store[s].chemicals.IDs)
@@ -450,6 +564,41 @@ def phases_info(s):
     arr = phase_totals(s)
     ph = list(s.phases) if kind_of(s) == 'M' else [s.phase]
     return ph, [p for p, row in zip(ph, arr) if row.any()]
+
+def copy_flow_moves(store, op):
+    """copy with removal neither duplicates nor loses material: the same call on copies of the two
+    streams, the receiver emptied first, must leave receiver + source == source before, chemical
+    by chemical (whatever the phase selector, the IDs and exclude)."""
+    tmo = env()['tmo']
+    d, s, ids, remove, exclude = op[1:6]
+    if not remove: return None
+    try:
+        recv = store[d].copy(); recv.empty(); src = store[s].copy()
+    except Exception:
+        return None
+    before = totals(src)
+    info_r, info_s = phases_info(recv), phases_info(src)
+    try:
+        apply_op([recv, src], ['copy_flow', 0, 1] + list(op[3:]))
+    except Exception:
+        return None
+    after, got = totals(src), totals(recv)
+    for n in NAMES:
+        if not close(got[n] + after[n], before[n]):
+            phase = op[6] if len(op) > 6 else None
+            multi_recv = kind_of(store[d]) == 'M'
+            sel = 'all' if phase is None or not multi_recv else ('match' if phase.lower() in [p.lower() for p in info_s[0]] else 'mismatch')
+            detail = f'chemical {n}: source had {before[n]}, keeps {after[n]}, receiver got {got[n]}'
+            # classes already present in the unchanged tree get a stable key each
+            if multi_recv and exclude and ids is None:
+                return f'copy_flow:recv=M:exclude-with-all-IDs:remove=1: {detail}'
+            if multi_recv and kind_of(store[s]) == 'M' and len(info_r[0]) != len(info_s[0]):
+                return f'copy_flow:recv=M:src=M:number-of-phases-differs:remove=1: {detail}'
+            if multi_recv and kind_of(store[s]) == 'S' and exclude and sel == 'mismatch':
+                return f'copy_flow:recv=M:src=S:exclude-with-other-phase-selector:remove=1: {detail}'
+            return (f'copy_flow:recv={kind_of(store[d])}:src={kind_of(store[s])}:selector={sel}:ids={"all" if ids is None else "some"}'
+                    f':exclude={int(exclude)}:remove=1: {detail}')
+    return None
 
 def case_ids(s):
     return list(s.chemicals.IDs)
@@ -493,8 +642,39 @@ CORPUS = [
      'ops': [['sep', 0, 1]]},
     # 12: receiver among the inlets, temperature solve fails, fallback to multi-phase
     {'streams': [_s(0, 's', [2., 0, 0.25, 0, 0, 1.]), _s(0, 'g', [1., 0, 0, 0, 0, 0])], 'ops': [['mix', 0, [0, 1], True, 1]]},
+    # seeded C01-1: the same set of non-zero chemicals presented in another key order (reordered package, insertion order)
+    {'streams': [_s(0, 'l', _Z6), _s(0, 'g', _Z6), _s(1, 'l', [0, 3., 40.]), _s(2, 'l', [0, 0, 0, 0, 2., 1.]),
+                 dict(_s(1, 'g', [0, 5., 7.]), order=[2, 1, 0])],
+     'ops': [['mix', 0, [2], False, 0], ['mix', 1, [3], False, 0], ['mix', 0, [2, 3, 4], False, 0], ['sep', 0, 4], ['mix', 1, [4], True, 0]]},
+    # seeded C01-3: MultiStream.copy_flow with a phase selector that is not the single-phase source's phase, remove=True
+    {'streams': [_m(1, ['g', 'l'], [[0, 0, 0], [0, 0, 0]]), _s(1, 'l', [4., 1., 2.])],
+     'ops': [['copy_flow', 0, 1, None, True, False, 'g']]},
+    {'streams': [_m(0, ['g', 'l'], [[1., 0, 0, 0, 0, 0], _Z6]), _s(4, 'g', [0, 1., 2., 0, 0, 4.])],
+     'ops': [['copy_flow', 0, 1, ['B_', 'F_'], True, False, 'l'], ['copy_flow', 0, 1, 'C_', True, False, 'g']]},
     # mix then separate (same and other package, self inlet)
     {'streams': [_s(0, 'l', [1., 2., 0, 0, 0, 0]), _s(1, 'g', [4., 0.5, 0]), _m(2, ['g', 'l'], [[0, 0, 0, 0, 1., 0], [0, 0, 0, 8., 0, 3.]])],
      'ops': [['mix', 0, [0, 1, 2, 0], False, 0], ['sep', 0, 2]]},
 ]
-WITNESSES = []
+# Witnesses of the refuted statement C01_multi_copy_remove_statement (coq/C01/Props.v): three ways in which
+# MultiStream.copy_flow(remove=True) loses or duplicates material on the unchanged tree.  A witness is replayed
+# (and must still fail) in every run once its finding line is recorded in known_findings.txt; until then it
+# is listed here only (the oracle reports these classes under the same keys when a search runs).
+_ALL_WITNESSES = [
+    {'key': 'C01:copy_flow:recv=M:src=M:number-of-phases-differs:remove=1',
+     'case': {'streams': [_m(1, ['g', 'l'], [[0, 0, 0], [0, 0, 0]]), _m(1, ['g', 'l', 's'], [[1., 0, 0], [0, 2., 0], [0, 0, 4.]])],
+              'ops': [['copy_flow', 0, 1, None, True, False, None]]}},
+    {'key': 'C01:copy_flow:recv=M:exclude-with-all-IDs:remove=1',
+     'case': {'streams': [_m(1, ['g', 'l'], [[0, 0, 0], [0, 0, 0]]), _s(1, 'l', [4., 1., 2.])],
+              'ops': [['copy_flow', 0, 1, None, True, True, None]]}},
+    {'key': 'C01:copy_flow:recv=M:src=S:exclude-with-other-phase-selector:remove=1',
+     'case': {'streams': [_m(1, ['g', 'l'], [[0, 0, 0], [0, 0, 0]]), _s(1, 'l', [4., 1., 2.])],
+              'ops': [['copy_flow', 0, 1, ['A_'], True, True, 'g']]}},
+]
+def _recorded():
+    import os, re
+    path = os.path.join(os.path.dirname(os.path.dirname(os.path.abspath(__file__))), 'known_findings.txt')
+    try:
+        return set(re.findall(r'^finding:\s+property=C01\s+key=(\S+)', open(path).read(), re.M))
+    except OSError:
+        return set()
+WITNESSES = [w for w in _ALL_WITNESSES if w['key'] in _recorded()]
